@@ -7,6 +7,11 @@
 //   ILL  ill-formed (absent operand, duplicate id/object/index): must raise bpp::Exception, nothing changes;
 //   FREE returning would give a state the reference cannot represent (second edge on a pair, ...): may raise (nothing
 //        changes) or return; then only the agreement of all views is demanded (the model is re-read from the edge table).
+// Observers of a second pair of object types (NObj2/EObj2) are reached through the CONVERTING copy constructor: "conv" is a
+// converted copy of an observer that stays registered on the graph and is compared with its own reference maps after every
+// later operation; "obs1=convert(conv)" converts it back so that the history goes on operating on a twice converted copy.
+// Random histories follow one of two plans (H_history): a uniform mix of all operations, or a staged history (create/delete
+// churn until node ids lie above the live count -> dense linking incl. self-loops -> direction changes to and fro).
 // Weakest readings used: neighbour / edge lists are compared as sets; "number of neighbours / degree" may count distinct
 // neighbours or incident relations (self-loop once or twice); getAllInnerNodes may be "has a son" (code) or "degree > 1"
 // (doc); makeDirected may orient every edge either way; getNodes of an undirected edge may report either order;
@@ -135,7 +140,7 @@ struct World {
     size_t n = gm.nodes.size();
     if (enumMode) { size_t k = static_cast<size_t>(c.below(n + 1)); live = k < n; return live ? nth(gm.nodes, k) : gm.absentFresh(); }
     const size_t f = liveBias;
-    size_t k = static_cast<size_t>(c.below(f * n + 2));  // random histories: absent operands in about 2 of 3n+2 draws
+    size_t k = static_cast<size_t>(c.below(f * n + 2));  // random histories: absent operands in about 2 of f*n+2 draws (f = 3, staged plan 8)
     live = k < f * n; if (live) return nth(gm.nodes, k % n);
     if (k > f * n) for (Id x : gm.everNode) if (!gm.nodes.count(x)) return x;  // a deleted id
     return gm.absentFresh();
